@@ -4,6 +4,9 @@ package main
 // writes "START <id>" before and a Result JSON line after each program.
 
 import (
+	"sort"
+	"runtime"
+	"regexp"
 	"bufio"
 	"encoding/json"
 	"fmt"
@@ -34,12 +37,60 @@ func e1Worker(args []string) {
 		}
 		fmt.Fprintf(out, "START %s\n", p.ID)
 		out.Flush()
+		workerEmit = func(res *Result) {
+			data, _ := json.Marshal(res)
+			out.Write(data)
+			out.WriteByte('\n')
+			out.Flush()
+		}
 		res := runProgFast(&p)
-		data, _ := json.Marshal(res)
-		out.Write(data)
-		out.WriteByte('\n')
-		out.Flush()
+		workerEmit(res)
 	}
+}
+
+// workerEmit writes one result line; also used by the watchdog (the evaluating goroutine is blocked then).
+var workerEmit = func(*Result) {}
+
+var goroutineHeaderRe = regexp.MustCompile(`(?m)^goroutine (\d+) \[([^\],]+)`)
+
+// quiescentDeadlock reports whether every goroutine but the caller is blocked in a channel, select or lock
+// operation, twice one second apart with the same goroutines in the same states and no new trace event:
+// no goroutine can ever run again (the generated programs use no timers longer than a few milliseconds).
+func quiescentDeadlock(events func() int) (string, bool) {
+	sample := func() (string, bool) {
+		buf := make([]byte, 8<<20)
+		buf = buf[:runtime.Stack(buf, true)]
+		var keys []string
+		for i, m := range goroutineHeaderRe.FindAllStringSubmatch(string(buf), -1) {
+			state := m[2]
+			if i == 0 && state == "running" {
+				continue // the caller
+			}
+			blocked := false
+			for _, b := range []string{"chan receive", "chan send", "select", "sync.Mutex.Lock", "sync.RWMutex", "sync.WaitGroup.Wait", "sync.Cond.Wait", "semacquire"} {
+				if strings.HasPrefix(state, b) {
+					blocked = true
+				}
+			}
+			if !blocked {
+				return "", false
+			}
+			keys = append(keys, m[1]+":"+state)
+		}
+		sort.Strings(keys)
+		return strings.Join(keys, " "), true
+	}
+	n0 := events()
+	a, ok := sample()
+	if !ok {
+		return "", false
+	}
+	time.Sleep(time.Second)
+	b, ok := sample()
+	if !ok || a != b || events() != n0 {
+		return "", false
+	}
+	return "every goroutine is blocked for ever: " + a, true
 }
 
 func newQuietInterp() *fast.Interp {
@@ -118,7 +169,22 @@ func runProgFast(p *Prog) *Result {
 		fast.VerifSetOwnership(true)
 	}
 	timedOut := false
-	timer := time.AfterFunc(60*time.Second, func() { timedOut = true; ir.Interrupt(os.Interrupt) })
+	timer := time.AfterFunc(60*time.Second, func() {
+		timedOut = true
+		// a program blocked for ever in channel or lock operations cannot be interrupted: decide that on the
+		// goroutine states (logical quiescence), report it as the program's end and leave the process
+		if desc, dead := quiescentDeadlock(func() int { tmu.Lock(); defer tmu.Unlock(); return len(trace.Events) }); dead {
+			tmu.Lock()
+			res.Events = append([]string{}, trace.Events...)
+			res.Hooks = trace.Hooks
+			tmu.Unlock()
+			res.End = "deadlock"
+			res.Detail = desc
+			workerEmit(res)
+			os.Exit(0)
+		}
+		ir.Interrupt(os.Interrupt)
+	})
 	defer timer.Stop()
 	before := fast.VerifCounters()
 	finish := func() *Result {
